@@ -150,7 +150,7 @@ func C10(p *ir.Program, r *report.R) {
 		// wantHash: starts as rootHash, afterwards only copy(wantHash[:], hashNode child of the decoded node)
 		var wal *ssa.Alloc
 		ir.Instrs(fn, func(in ssa.Instruction) {
-			if al, ok := in.(*ssa.Alloc); ok && al.Comment == "wantHash" {
+			if al, ok := in.(*ssa.Alloc); ok && ir.LocalName(al.Parent(), al.Comment) == "wantHash" {
 				wal = al
 			}
 		})
